@@ -54,6 +54,9 @@ def rpo(body):
     return {b: i for i, b in enumerate(order)}
 
 
+CSTR_READERS = set()   # filled by run(): pgcat::messages functions that read one nul-terminated string from a cursor
+
+
 def wire_shape(body, mode):
     """linearised sequence of wire field kinds read (mode='dec') or written (mode='enc') by a codec body;
     fields inside a loop are wrapped as (..)*"""
@@ -73,7 +76,7 @@ def wire_shape(body, mode):
                 kind = "i16"
             elif re.search(r"Buf::get_i32$", c.name):
                 kind = "i32"
-            elif c.name.endswith("BytesMutReader>::read_string"):
+            elif c.name.endswith("BytesMutReader>::read_string") or c.name in CSTR_READERS:
                 kind = "cstr"
             elif re.search(r"Buf::copy_to_slice$", c.name):
                 kind = "bytes"
@@ -130,6 +133,10 @@ def run(ctx):
                        "create-before-use ordering in the Sync arm of Client::handle, who-may-write on the per-client name map, eviction => Close, and rename-only rewriting")
     ctx.assumptions = ["cross-connection histories (which server a transaction lands on, LRU order) are not decided", "SipHash collisions between distinct unambiguous encodings are not considered",
                        "lru::LruCache::push returns the evicted entry (trusted library)"]
+    # readers of one nul-terminated string (lossy or raw): free functions of pgcat::messages that take the cursor and call BufRead::read_until
+    for n_, b_ in F.bodies.items():
+        if n_.startswith("pgcat::messages::") and "::" not in n_[len("pgcat::messages::"):] and b_.calls("re:BufRead::read_until$"):
+            CSTR_READERS.add(n_)
     # ---------------- R1
     r1 = ctx.rule("C08-R1", "each of Parse/Bind/Describe/Close is decoded and re-encoded with the same sequence of wire fields; Bind::rename copies everything after the two names verbatim", floor=5)
     for m in MSG:
@@ -501,6 +508,45 @@ def run(ctx):
             back_after = [b_ for b_ in back if any(b_ in rp.reach([s_]) for s_ in starts)]
             w2 = rp.uncrossed_path(starts, oks, blocks=back_after, edges=notimm) if starts else [0]
             r8.check(bool(starts) and bool(back_after) and w2 is None, "immediate:batch-names-put-back", "after the round trip the names registered for the batch are put back", "after a Parse was sent on the spot the names registered for the client's batch are lost: their answers will not be matched", "", w2 and rp.describe_path(w2))
+
+    # ---------------- R9 (D19/D20) byte exactness
+    r9 = ctx.rule("C08-R9", "what is sent on, hashed or used to find the client's statement is the bytes the client wrote: no part of a rewritten Parse/Bind that is forwarded, no input of the cache key and no statement name used as a key "
+                  "goes through a lossy UTF-8 decode (client_encoding need not be UTF-8)", floor=5)
+    cg_nodes = F.callgraph_nodes()
+    lossy_prims = {n_ for n_ in cg_nodes if re.search(r"from_utf8_lossy$", n_)}
+    LOSSY = {n_ for n_ in F.bodies if n_.startswith(("pgcat::messages::", "<")) and "messages" in n_ and (F.reachable_fns([n_]) & lossy_prims)}
+    def lossy_calls(b_, op):
+        return sorted({o.call.name for o in origins(b_, op, taint=True) if o.kind == "call" and (o.call.name in LOSSY or o.call.name in lossy_prims or (o.call.defn or "") in LOSSY)})
+    r9.check(bool(lossy_prims) and bool(LOSSY), "lossy-readers", "%d message readers decode with from_utf8_lossy (%s)" % (len(LOSSY), sorted(x.split("::")[-1] for x in LOSSY)[:4]), "no lossy reader found (rule needs re-anchoring)")
+    br = ctx.body("pgcat::messages::Bind::rename", r9)
+    if br:
+        bad = []
+        for c in br.calls("re:BufMut>::put_slice$|BufMut::put_slice$|BufMut>::put_i32$|BufMut::put_i32$|BufMut>::put$|BufMut::put$"):
+            for a in c.args[1:]:
+                lc = lossy_calls(br, a)
+                if lc:
+                    bad.append((c.name.split("::")[-1], c.span.split(":")[1] if ":" in c.span else c.span, [x.split("::")[-1] for x in lc]))
+        r9.check(not bad, "Bind::rename:bytes-and-length", "Bind::rename writes and measures raw bytes only",
+                 "Bind::rename writes or measures a lossily decoded string (%s): for a portal or statement name that is not valid UTF-8 the frame does not have the length it announces and the portal name is altered - the server reads garbage after the frame and closes the connection" % bad)
+    for msgn, flds in (("Parse", ("query",)),):
+        dec = ctx.body(DEC % msgn, r9)
+        if dec:
+            for b_, blk, st in F.aggregates("pgcat::messages::" + msgn):
+                if b_ is not dec:
+                    continue
+                for f in flds:
+                    lc = lossy_calls(dec, st["rv"]["ops"][st["rv"]["fields"].index(f)])
+                    r9.check(not lc, "%s.%s:forwarded-and-hashed" % (msgn, f), "%s.%s keeps the client's bytes" % (msgn, f),
+                             "%s.%s is decoded with %s and re-encoded from the result: a statement text that is not valid UTF-8 (client_encoding LATIN1: 'e-acute' = 0xE9) is forwarded with the byte replaced by U+FFFD, and texts that differ only in such bytes share one cache key / server-side statement" % (msgn, f, [x.split("::")[-1] for x in lc]))
+    for msgn, f in (("Parse", "name"), ("Bind", "prepared_statement"), ("Describe", "statement_name"), ("Close", "name")):
+        dec = ctx.body(DEC % msgn, r9)
+        if dec:
+            for b_, blk, st in F.aggregates("pgcat::messages::" + msgn):
+                if b_ is not dec or f not in st["rv"].get("fields", []):
+                    continue
+                lc = lossy_calls(dec, st["rv"]["ops"][st["rv"]["fields"].index(f)])
+                r9.check(not lc, "statement-name-key:%s.%s" % (msgn, f), "%s.%s (key of the client's statement map) keeps the client's bytes" % (msgn, f),
+                         "the statement name %s.%s, which keys the client's own statement map, is decoded lossily: two names of one client that differ only in bytes that are not valid UTF-8 ('s\\xE9' / 's\\xE8') become the same key, the second Parse replaces the first and a Bind of the first name runs the second text" % (msgn, f))
 
     # ---------------- R6
     r6 = ctx.rule("C08-R6", "rewriting changes only the statement name (Parse::rewrite, Describe::rename)", floor=2)
